@@ -37,6 +37,10 @@ func (n1 jsonNumber) Equals(node JsonNode, options ...Option) bool {
 }
 
 func (n jsonNumber) hashCode(options []Option) [8]byte {
+	if n == 0 {
+		// Negative zero equals zero and must hash like it.
+		n = 0
+	}
 	a := make([]byte, 0, 8)
 	b := bytes.NewBuffer(a)
 	binary.Write(b, binary.LittleEndian, n)
